@@ -161,30 +161,59 @@ package p2pke
 //@   ensures c.sessions[1].Session != nil ==> c.sessions[1] == old(c.sessions[1]) && c.ready == old(c.ready)
 //@   ensures c.sessions[2].Session != nil ==> c.sessions[2] == old(c.sessions[2])
 //@
+//@ func helloID
+//@   pure
+//@   ghostvar hashed = false
+//@   ensures [ishello] isHello <==> (len(x) >= 4 && ((x[0]*256 + x[1])*256 + x[2])*256 + x[3] == 0)
+//@   ensures [hashed] isHello ==> ghost(hashed)
+//@   after call Sum256:
+//@     set hashed = true
+//@
+//@ func (sessionEntry).foreignHello
+//@   pure
+//@   requires se.Session != nil
+//@   ensures ret <==> (isHello && !se.Session.isInit && se.ID != sid)
+//@
+//@ func deliveryOrder
+//@   pure
+//@   ensures [data] len(x) >= 4 && ((x[0]*256 + x[1])*256 + x[2])*256 + x[3] >= 16 ==> ret[0] == 0 && ret[1] == 1 && ret[2] == 2
+//@   ensures [handshake] !(len(x) >= 4 && ((x[0]*256 + x[1])*256 + x[2])*256 + x[3] >= 16) ==> ret[0] == 2 && ret[1] == 1 && ret[2] == 0
+//@
 //@ func (*Channel).Deliver$1
 //@   noframe
 //@   requires c != nil && inv(c)
 //@   ghostvar promoted = false
 //@   ghostvar gotApp = false
+//@   ghostvar hashed = false
+//@   ghostvar hello = len(x) >= 4 && ((x[0]*256 + x[1])*256 + x[2])*256 + x[3] == 0
+//@   ghostvar posths = len(x) >= 4 && ((x[0]*256 + x[1])*256 + x[2])*256 + x[3] >= 16
 //@   ensures inv(c)
 //@   ensures [pinned] !ghost(promoted) ==> c.remoteKey == old(c.remoteKey)
-//@   ensures [promotion] !ghost(promoted) ==> c.sessions[0] == old(c.sessions[0]) && c.sessions[1] == old(c.sessions[1])
+//@   ensures [promotion] !ghost(promoted) ==> c.sessions[0].Session == old(c.sessions[0].Session) && c.sessions[1].Session == old(c.sessions[1].Session)
 //@   ensures [keepalive] ghost(gotApp) && ret1 == nil ==> c.lastReceived == now
 //@   ensures [appdata] !ghost(gotApp) ==> appData == old(appData)
+//@   after call helloID:
+//@     set hashed = res1
 //@   after call (*Channel).onReadySession:
 //@     set promoted = res0 == nil
+//@   before call (*Session).Deliver:
+//@     assert [ownhello] ghost(hello) && !s.isInit ==> ghost(hashed) && se.ID == sid
+//@     assert [order] (ghost(posths) ==> i == _i) && (!ghost(posths) ==> i == 2 - _i)
 //@   after call (*Session).Deliver:
 //@     set gotApp = res0
 //@   loop 0:
-//@     invariant 0 <= i && i <= 3 && c == old(c) && inv(c)
+//@     invariant 0 <= _i && _i <= 3 && c == old(c) && inv(c)
 //@     invariant !ghost(gotApp) && appData == old(appData)
-//@     invariant !ghost(promoted) ==> c.sessions[0] == old(c.sessions[0]) && c.sessions[1] == old(c.sessions[1]) && c.sessions[2] == old(c.sessions[2])
-//@     invariant ghost(promoted) ==> i == 3
-//@     invariant !ghost(promoted) ==> c.remoteKey == old(c.remoteKey)
+//@     invariant ghost(hello) ==> ghost(hashed)
+//@     invariant !ghost(promoted) ==> c.sessions[0].Session == old(c.sessions[0].Session) && c.sessions[1].Session == old(c.sessions[1].Session) && c.sessions[2].Session == old(c.sessions[2].Session) && c.remoteKey == old(c.remoteKey)
+//@     invariant ghost(promoted) ==> c.sessions[0].Session == old(c.sessions[1].Session) && c.sessions[1].Session == old(c.sessions[2].Session) && c.sessions[2].Session == nil
+//@     invariant old(c.sessions[0].Session) != nil ==> inv(old(c.sessions[0].Session)) && sready(old(c.sessions[0].Session).isInit, old(c.sessions[0].Session).hsIndex)
+//@     invariant old(c.sessions[1].Session) != nil ==> inv(old(c.sessions[1].Session)) && sready(old(c.sessions[1].Session).isInit, old(c.sessions[1].Session).hsIndex)
+//@     invariant old(c.sessions[2].Session) != nil ==> inv(old(c.sessions[2].Session))
 //@   loop 1:
 //@     invariant 0 <= _i && _i <= 3 && c == old(c) && inv(c)
 //@     invariant !ghost(gotApp) && appData == old(appData)
-//@     invariant ghost(promoted) || (c.sessions[0] == old(c.sessions[0]) && c.sessions[1] == old(c.sessions[1]))
+//@     invariant ghost(promoted) || (c.sessions[0].Session == old(c.sessions[0].Session) && c.sessions[1].Session == old(c.sessions[1].Session))
 //@     invariant !ghost(promoted) ==> c.remoteKey == old(c.remoteKey)
 //@
 //@ func (*Channel).getOrInit
